@@ -1,11 +1,24 @@
 (* C10 — a version's canonical string denotes the same version (SemVer family part; PyPI,
    Maven and RubyGems are in C10_*.v).  Statements only.
 
-   The re-parse clauses (the canonical string parses, compares equal, is a fixed point of
-   canonicalisation) are decided on every generated string by the correspondence check and
-   the direct oracle; at model level this file proves what does not need a print/parse
-   inversion, and that clause 4 follows from clauses 1-2 and the order laws of C01. *)
-From DepsDev Require Import Lib.Base Semver.Version Semver.Compare Semver.Compare_proofs Semver.Canon_proofs.
+   For the six systems without extension (Default, Cargo, Go, NPM, NuGet, Composer) the model
+   parser (Semver/Parse.v) and the canonical printer (Semver/Version.v) are inverted on ALL byte
+   strings, no length bound (Semver/ParseSound_proofs.v: what a parse returns; ParseRender_proofs.v:
+   rendered text is accepted; ParseRoundtrip_proofs.v: the combination):
+   - the canonical string of every parsed version parses again in the same system, and
+     canonicalising the result returns the identical string (C10_family_reparse_fixed);
+   - the re-parsed version compares equal to the original exactly on c10_family_dom: all versions
+     without a wildcard, and wildcard versions without prerelease whose numbers after the first
+     wildcard are zero (C10_family_reparse_partial, C10_family_reparse_exact);
+   - for Go and Composer (no wildcards) the full statement holds (C10_family_reparse_go_composer);
+   - the full statement is refuted for Default, Cargo, NPM (1.*.3, 1.*-a) and NuGet (1.*-a):
+     Canon stops at the first wildcard and drops the metadata of a wildcard version
+     (C10_family_reparse_refuted).
+   The structural facts and the derivation of clause 4 from clauses 1-2 and the order laws of C01
+   come first.  The same clauses are decided on every generated string by the correspondence
+   check and the direct oracle. *)
+From DepsDev Require Import Lib.Base Semver.Version Semver.Compare Semver.Compare_proofs Semver.Canon_proofs
+  Semver.Parse Semver.ParseRender_proofs Semver.ParseSound_proofs Semver.CanonNums_proofs Semver.ParseRoundtrip_proofs.
 
 Theorem C10_family_canon_fields_partial : forall sb a b,
   v_sys a = v_sys b -> v_num a = v_num b -> v_pre a = v_pre b -> v_build a = v_build b ->
@@ -25,3 +38,79 @@ Proof. exact generic_canon_nuget. Qed.
 Theorem C10_family_wildcard : forall sb v, is_wildcard (v_num v) = true ->
   generic_canon sb v = (if sys_eqb (v_sys v) SGo then [118%N] else []) ++ print_nums (v_num v).
 Proof. exact generic_canon_wildcard. Qed.
+
+(* ---------------------------------------------------------------- print/parse inversion *)
+(* Clauses 1 and 3 for every accepted string of the six systems, in both showBuild modes. *)
+Theorem C10_family_reparse_fixed : forall sb S s v, family S -> parse S s = Ok v ->
+  exists v', parse S (generic_canon sb v) = Ok v' /\ generic_canon sb v' = generic_canon sb v /\
+             (c10_family_dom S v = true -> generic_compare S v v' = 0%Z).
+Proof. exact family_reparse_all. Qed.
+Print Assumptions C10_family_reparse_fixed.
+
+(* All three clauses on the domain. *)
+Theorem C10_family_reparse_partial : forall sb S s v, family S -> parse S s = Ok v -> c10_family_dom S v = true ->
+  exists v', parse S (generic_canon sb v) = Ok v' /\ generic_compare S v v' = 0%Z /\
+             generic_canon sb v' = generic_canon sb v.
+Proof. exact family_reparse_dom. Qed.
+Print Assumptions C10_family_reparse_partial.
+
+(* The domain is exact: for an accepted string, clause 2 holds if and only if the version is in it. *)
+Theorem C10_family_reparse_exact : forall sb S s v, family S -> parse S s = Ok v ->
+  ((exists v', parse S (generic_canon sb v) = Ok v' /\ generic_compare S v v' = 0%Z) <-> c10_family_dom S v = true).
+Proof. exact family_reparse_exact. Qed.
+Print Assumptions C10_family_reparse_exact.
+
+(* Go and Composer have no wildcards: the full statement. *)
+Theorem C10_family_reparse_go_composer : forall sb S s v, S = SGo \/ S = SComposer -> parse S s = Ok v ->
+  exists v', parse S (generic_canon sb v) = Ok v' /\ generic_compare S v v' = 0%Z /\
+             generic_canon sb v' = generic_canon sb v.
+Proof. exact family_reparse_go_composer. Qed.
+Print Assumptions C10_family_reparse_go_composer.
+
+(* What every parsed version of the family looks like. *)
+Theorem C10_family_parsed_shape : forall S s v, family S -> parse S s = Ok v -> wf_parsed S v.
+Proof. exact parse_wf. Qed.
+Print Assumptions C10_family_parsed_shape.
+
+(* The full statement is false.  Witnesses: 1.*.3 (a number after the wildcard) and 1.*-a (a
+   wildcard version with a prerelease) in Default, Cargo and NPM; 1.*-a in NuGet.  The canonical
+   string is 1.* in each case; it parses, but to a version that compares 1 resp. -1. *)
+Definition w_1s3 : bytes := [49; 46; 42; 46; 51]%N.
+Definition w_1sa : bytes := [49; 46; 42; 45; 97]%N.
+Definition c10_fails (S : system) (s : bytes) : bool :=
+  match parse S s with
+  | Ok v => match parse S (generic_canon true v) with
+            | Ok v' => negb (Z.eqb (generic_compare S v v') 0)
+            | _ => false
+            end
+  | _ => false
+  end.
+
+Lemma C10_family_witnesses :
+  forallb (fun S => c10_fails S w_1s3 && c10_fails S w_1sa) [SDefault; SCargo; SNPM] && c10_fails SNuGet w_1sa = true.
+Proof. vm_compute. reflexivity. Qed.
+
+Theorem C10_family_reparse_refuted :
+  ~ (forall S s v, family S -> parse S s = Ok v ->
+       exists v', parse S (generic_canon true v) = Ok v' /\ generic_compare S v v' = 0%Z /\
+                  generic_canon true v' = generic_canon true v).
+Proof.
+  intros H.
+  destruct (parse SDefault w_1s3) as [v| | |] eqn:P; try (vm_compute in P; discriminate P).
+  destruct (H SDefault w_1s3 v (or_introl eq_refl) P) as (v' & P' & C & _).
+  revert P' C. vm_compute in P. inversion P; subst v. vm_compute. intros P'. inversion P'; subst v'. discriminate.
+Qed.
+Print Assumptions C10_family_reparse_refuted.
+
+(* The domain is inhabited by non-trivial versions: prerelease and build, a trailing wildcard,
+   NuGet with upper case, a floating prerelease and a fourth number, v-prefixes, leading zeros. *)
+Example C10_family_dom_inhabited :
+  forallb (fun p => match parse (fst p) (snd p) with Ok v => c10_family_dom (fst p) v | _ => false end)
+    [ (SNPM, [118; 49; 46; 50; 46; 51; 45; 97; 108; 112; 104; 97; 46; 49; 43; 98; 46; 50]%N);   (* v1.2.3-alpha.1+b.2 *)
+      (SDefault, [49; 46; 42]%N);                                                               (* 1.*  *)
+      (SCargo, [49; 46; 50; 46; 120]%N);                                                        (* 1.2.x *)
+      (SNuGet, [49; 46; 48; 46; 48; 46; 52; 45; 66; 101; 116; 97; 42]%N);                        (* 1.0.0.4-Beta* *)
+      (SNuGet, [48; 49; 46; 42]%N);                                                             (* 01.* *)
+      (SGo, [118; 49; 46; 50]%N);                                                               (* v1.2 *)
+      (SComposer, [86; 49; 46; 50; 46; 51; 46; 52; 46; 53; 45; 45]%N) ] = true.                  (* V1.2.3.4.5-- *)
+Proof. vm_compute. reflexivity. Qed.
